@@ -80,6 +80,9 @@ def _w():
     add("arg-identity", "N", lambda e, r: [S("identity"), e])
     add("arg-list", "N", lambda e, r: [S("list"), 1, e])
     add("arg-nested", "N", lambda e, r: [S("list"), [S("progn"), e, 1]])
+    # the call is made while the HEAD of a tail-position call is evaluated, and that call has only atoms as arguments
+    add("head-expr", "N", lambda e, r: [[S("progn"), e, S("identity")], 0])
+    add("head-expr-noargs", "N", lambda e, r: [[S("progn"), e, [S("lambda"), [], 5]]])
     add("handler-bind", "B", lambda e, r: [S("handler-bind"), [[S("my-cond"), [S("lambda"), [S("c"), S("&rest"), S("a")], [S("probe"), Q(S("handled")), S("c")], Q(S("h"))]]], e])
     add("handler-rethrow", "B", lambda e, r: [S("handler-bind"), [[S("condition"), [S("lambda"), [S("c"), S("&rest"), S("a")], [S("probe"), Q(S("seen")), S("c")], [S("rethrow")]]]], e])
     add("ignore-errors", "B", lambda e, r: [S("ignore-errors"), e])
